@@ -202,7 +202,7 @@ static inline bool genBody(Item& out) {
   InflightScope sc(0);
   if (g.throwN.load(std::memory_order_relaxed) > 0) {
     long pt = g.postThrowGen.fetch_add(1, std::memory_order_relaxed);
-    if (pt > 1000) usleep(50); // give the thrower's thread every chance to publish the exception
+    if (pt > 1000) usleep(200); // give the thrower's thread every chance to publish the exception
     if (pt > kPostThrowGenCap) {
       genStorm();
       return false;
@@ -213,7 +213,7 @@ static inline bool genBody(Item& out) {
     g.tagOverflow.fetch_add(1, std::memory_order_relaxed);
     return false;
   }
-  if (!g.unbounded && t >= g.n) return false;
+  if (t >= g.n) return false; // 'unbounded' generators get a far-away n as a safety net
   g_cnt[0][t].fetch_add(1, std::memory_order_relaxed);
   dwell(0, t);
   if (throwsAt(0, t)) doThrow(0, t);
